@@ -67,7 +67,7 @@ def cases(tier):
     # the same oracle with the package logger at DEBUG (stopped candidates are then kept in the lattice; they must stay
     # inadmissible): node-and-edge states, where the end-point rule produces such candidates
     for gs in ms.graph_slice("n3"):
-        yield {"gs": list(gs), "labels": "int", "T": 2 if tier == "quick" else 3, "backends": ["inmem"], "noise": [0], "debug": True}
+        yield {"gs": list(gs), "labels": "int", "T": 3, "backends": ["inmem"], "noise": [0], "debug": True}
     lvl = "n4e3" if tier == "quick" else "n4e6"
     for gs in ms.graph_slice(lvl):
         if gs[1] == 4:
